@@ -89,7 +89,7 @@ func checkChunkLoop(c *Ctx, r *Report) *ssa.Function {
 	recT := c.Named("pkg/ipmi", "CipherSuiteRecord")
 	var retr, parser *ssa.Function
 	for _, fn := range c.LibFuncs() {
-		if fn.Pkg == nil || fn.Pkg.Pkg.Path() != modPath || fn.Parent() != nil || fn.Signature.Results().Len() != 2 {
+		if fn.Pkg == nil || !c.libFn(fn) || fn.Parent() != nil || fn.Signature.Results().Len() != 2 {
 			continue
 		}
 		if sl, ok := fn.Signature.Results().At(0).Type().(*types.Slice); ok {
